@@ -1534,17 +1534,37 @@ namespace awkward {
     }
     else {
       bool has_offsets = false;
-      std::vector<std::shared_ptr<int64_t>> offsetsptrs;
-      std::vector<int64_t*> offsetsraws;
+      std::vector<Index64> offsetslist;
       ContentPtrVec contents;
       for (auto content : contents_) {
         std::pair<Index64, ContentPtr> pair =
           content.get()->offsets_and_flattened(posaxis, posaxis < 0 ? 0 : depth);
-        Index64 offsets = pair.first;
-        offsetsptrs.push_back(offsets.ptr());
-        offsetsraws.push_back(offsets.data());
+        offsetslist.push_back(pair.first);
         contents.push_back(pair.second);
-        has_offsets = (offsets.length() != 0);
+        if (pair.first.length() != 0) {
+          has_offsets = true;
+        }
+      }
+
+      std::vector<std::shared_ptr<int64_t>> offsetsptrs;
+      std::vector<int64_t*> offsetsraws;
+      for (size_t i = 0;  i < contents.size();  i++) {
+        if (has_offsets  &&  offsetslist[i].length() == 0) {
+          // this content was flattened below its top level (a negative axis
+          // and contents of different depths): each of its entries is still
+          // one entry
+          int64_t len = contents[i].get()->length();
+          Index64 counting(len + 1);
+          for (int64_t j = 0;  j <= len;  j++) {
+            counting.setitem_at_nowrap(j, j);
+          }
+          offsetsptrs.push_back(counting.ptr());
+          offsetsraws.push_back(counting.data());
+        }
+        else {
+          offsetsptrs.push_back(offsetslist[i].ptr());
+          offsetsraws.push_back(offsetslist[i].data());
+        }
       }
 
       if (has_offsets) {
